@@ -152,7 +152,8 @@ fn conformant(case: &ServerCase, idx: usize) -> Option<bool /* nts */> {
 }
 
 fn uid_values(efs: &[RawEf]) -> Vec<Vec<u8>> {
-    efs.iter().filter(|e| e.ty == EF_UID).map(|e| e.body.clone()).collect()
+    // the declared value (in NTPv5 the pad-to-4 bytes are not part of the field's value)
+    efs.iter().filter(|e| e.ty == EF_UID).map(|e| e.value().to_vec()).collect()
 }
 
 /// Evaluate the oracles selected by `which` on one executed world.
@@ -336,8 +337,9 @@ fn judge(case: &ServerCase, w: &World, which: Which, labels: &mut Labels, nontri
                     match ef.ty {
                         EF_UID => {
                             // value must be a request uid (the v4 encoder may add zero padding)
+                            let v = ef.value();
                             let ok = visible_uids.iter().any(|u| {
-                                ef.body.len() >= u.len() && ef.body[..u.len()] == u[..] && ef.body[u.len()..].iter().all(|b| *b == 0)
+                                v.len() >= u.len() && v[..u.len()] == u[..] && v[u.len()..].iter().all(|b| *b == 0)
                             });
                             if !ok {
                                 bail!("answer-uid-not-from-request", "uid {:?}", ef.body);
